@@ -6113,7 +6113,10 @@ class Query(object):
             for obj in objects: obj._delete_()
             return len(objects)
         translator = query._translator
-        sql_key = HashableDict(query._key, sql_command='DELETE')
+        # the SQL depends on the same things as the SQL of a SELECT (see _construct_sql_and_arguments):
+        # names passed to getattr(), types of the values (a comparison with None is an IS NULL test)
+        sql_key = HashableDict(query._key, sql_command='DELETE', vartypes=HashableDict(translator.vartypes),
+                               fixed_param_values=HashableDict(translator.fixed_param_values))
         database = query._database
         cache = database._get_cache()
         cache_entry = database._constructed_sql_cache.get(sql_key)
